@@ -268,8 +268,12 @@ func programSystems(r *vcore.Run) {
 				ref := prog.Eval(in, f.mod)
 				tc := taskCounts[(i+k)%len(taskCounts)]
 				r.Eval(fmt.Sprintf("prog%d|%s|%s|%d|tasks%d", i, f.name, b, k, tc), true)
-				_, err := c.Solve(in, prog.Outs(ref), solver.WithNbTasks(tc))
+				_, err := c.SolveTimeout(90*time.Second, in, prog.Outs(ref), solver.WithNbTasks(tc))
 				switch {
+				case err != nil && strings.HasPrefix(err.Error(), "TIMEOUT"):
+					r.Count("solve.DID-NOT-RETURN", 1)
+					r.Violation("solve-does-not-return/program/"+b, err.Error(), map[string]any{"program": prog.String(), "field": f.name, "tasks": tc, "inputs": fmt.Sprint(in), "reference_sat": ref.Sat})
+					return
 				case err != nil && strings.HasPrefix(err.Error(), "PANIC"):
 					r.Violation("solve-panic/program/"+b, err.Error(), map[string]any{"program": prog.String(), "field": f.name, "tasks": tc})
 				case ref.Sat && err != nil:
